@@ -117,6 +117,7 @@ pub fn pack_coils(coils: &[Coil], bytes: &mut [u8]) -> Result<usize, Error> {
     if bytes.len() < packed_size {
         return Err(Error::BufferSize);
     }
+    bytes[..packed_size].fill(0);
     coils.iter().enumerate().for_each(|(i, b)| {
         let v = u8::from(*b);
         bytes[i / 8] |= v << (i % 8);
